@@ -10,7 +10,7 @@ from ..prv import Pvt, PrvError
 
 ID = "C17"
 LEVEL = "exploration"
-RUNS = {"quick": 500, "thorough": 15000}
+RUNS = {"quick": 5000, "thorough": 15000}
 RULE = ("seeded programs of 1-3 threads define mark types (single and stack) and labels (overlapping, agreeing) and set/push/pop values through "
         "the REAL mark API under the simulated scheduler and clock while changing thread state and affinity (OHp/OHr/OHc/OHw/OAs); the streams "
         "libovni leaves are replayed through the reference model in clock order and compared with ovniemu's thread and CPU timelines of type "
